@@ -67,8 +67,19 @@ def io_document(g):
     if g.chance(0.5):
         nss.append(d.add_namespace("ü", "http://a/b/") if False else d.add_namespace("ex2", "http://a/b/"))
 
-    def name(used=None):
-        return QualifiedName(r.choice(nss), r.choice(LOCALS) + str(r.randint(0, 99)))
+    used_uris = set()
+
+    def name(fresh=True):
+        # one identifier, one record: in PROV-O two records under one identifier share a subject, and what the reader makes of
+        # it (which class wins, which time belongs to what) depends on rdflib's iteration order -- outside C07's space, and
+        # not this property's subject
+        for _ in range(50):
+            q = QualifiedName(r.choice(nss), r.choice(LOCALS) + str(r.randint(0, 99)))
+            if not fresh or q.uri not in used_uris:
+                break
+        if fresh:
+            used_uris.add(q.uri)
+        return q
 
     def value():
         k = r.random()
@@ -84,7 +95,7 @@ def io_document(g):
             return datetime.datetime(r.choice([1970, 2012, 2024]), r.randint(1, 12), r.randint(1, 28), r.randint(0, 23), r.randint(0, 59),
                                      r.randint(0, 59))
         if k < 0.9:
-            return name()
+            return name(fresh=False)
         return Identifier("http://example.org/ä/" + r.choice(LOCALS))
 
     def attrs():
